@@ -32,7 +32,7 @@ def _cols(d):
 
 
 def rows_headers_battery():
-    """dictable(rows, names) for n = 0..3 rows of m = 0..3 cells, names as a list / tuple-free dict_keys: exactly the named columns, column p lists row[i][p]"""
+    """dictable(rows, names) for n = 0..3 rows of m = 0..3 cells, names as a list / as dict_keys: exactly the named columns, column p lists row[i][p]"""
     from pyg_base import dictable
     names_all = ['a', 'b', 'c']
     count = 0
